@@ -45,26 +45,25 @@ Lemma in_dom_lookup : forall A (d : list (id * A)) x, in_dom x d = true -> exist
 Proof. intros A d x H. unfold in_dom in H. destruct (lookup d x); [eauto|discriminate]. Qed.
 
 (* ---- declarations only grow *)
-Definition chk_ext (chk : cst -> res cst) : Prop :=
-  forall st0 r, chk st0 = Ok r -> decl_ext (decl st0) (decl r).
+Definition pass_ext (pass : passfn) : Prop :=
+  forall d V d' E J em, pass d V = Ok (d', E, J, em) -> decl_ext d d'.
 
-Lemma loop_pass_ext : forall chk c d V d' V' em ch, chk_ext chk ->
-  loop_pass P true chk c d V = Ok (d', V', em, ch) -> decl_ext d d'.
+Lemma loop_pass_ext : forall pass d V d' V' J em ch, pass_ext pass ->
+  loop_pass P true pass d V = Ok (d', V', J, em, ch) -> decl_ext d d'.
 Proof.
-  intros chk c d V d' V' em ch Hc H. unfold loop_pass in H.
-  destruct (infer P true d V c) as [xc| |]; simpl in H; try discriminate.
-  destruct (chk _) as [r1| |] eqn:E; simpl in H; try discriminate.
+  intros pass d V d' V' J em ch Hc H. unfold loop_pass in H.
+  destruct (pass d V) as [[[[d1 E] J1] em1]| |] eqn:E1; cbn [bind] in H; try discriminate.
   match type of H with (if ?c then _ else _) = _ => destruct c end; [discriminate|].
-  inversion H; subst. apply Hc in E. exact E.
+  inversion H; subst. eapply Hc; eauto.
 Qed.
 
-Lemma loop_iter_ext : forall chk c n d V d' V' em ch, chk_ext chk ->
-  loop_iter P true chk c n d V = Ok (d', V', em, ch) -> decl_ext d d'.
+Lemma loop_iter_ext : forall pass n d V acc aps d' V' J em aps', pass_ext pass ->
+  loop_iter P true pass n d V acc aps = Ok (d', V', J, em, aps') -> decl_ext d d'.
 Proof.
-  intros chk c n. induction n as [|n IH]; intros d V d' V' em ch Hc H; simpl in H.
-  - destruct (loop_pass P true chk c d V) as [[[[d1 V1] em1] ch1]| |] eqn:E; simpl in H; try discriminate.
+  intros pass n. induction n as [|n IH]; intros d V acc aps d' V' J em aps' Hc H; simpl in H.
+  - destruct (loop_pass P true pass d V) as [[[[[d1 V1] J1] em1] ch1]| |] eqn:E; cbn [bind] in H; try discriminate.
     inversion H; subst. eapply loop_pass_ext; eauto.
-  - destruct (loop_pass P true chk c d V) as [[[[d1 V1] em1] ch1]| |] eqn:E; simpl in H; try discriminate.
+  - destruct (loop_pass P true pass d V) as [[[[[d1 V1] J1] em1] ch1]| |] eqn:E; cbn [bind] in H; try discriminate.
     destruct ch1.
     + eapply decl_ext_trans; [eapply loop_pass_ext; eauto | eapply IH; eauto].
     + inversion H; subst. eapply loop_pass_ext; eauto.
@@ -75,9 +74,29 @@ Arguments loop_pass : simpl never.
 Arguments merge : simpl never.
 Arguments merge_cert : simpl never.
 
-Lemma check_decl_ext : forall s ret st st', check_stmt P true ret st s = Ok st' -> decl_ext (decl st) (decl st').
+Lemma bind_var_ext : forall d V x t d' V', bind_var P d V x t = Ok (d', V') -> decl_ext d d'.
 Proof.
-  induction s; intros ret st st' H; simpl in H; destruct (cur st) as [fr|] eqn:Ec;
+  intros d V x t d' V' H. unfold bind_var in H. destruct (lookup d x).
+  - destruct (is_subtype P t t0); inversion H; subst. apply decl_ext_refl.
+  - inversion H; subst. apply decl_ext_app.
+Qed.
+
+Lemma loop_tail_ext : forall ret fr d pass chk_else b st' J,
+  pass_ext pass -> (forall st0 r, chk_else st0 = Ok r -> decl_ext (decl st0) (decl (fst r))) ->
+  check_loop_tail P true ret fr d pass chk_else b = Ok (st', J) -> decl_ext d (decl st').
+Proof.
+  intros ret fr d pass chk_else b st' J Hp He H. unfold check_loop_tail in H.
+  destruct (loop_iter P true pass 3 d fr j0 []) as [[[[[d' V'] J1] em] aps]| |] eqn:Eit; cbn [bind] in H; try discriminate.
+  destruct (loop_pass P true pass d' V') as [[[[[d2 V2] J2] em2] ch2]| |]; cbn [bind] in H; try discriminate.
+  destruct (chk_else _) as [re| |] eqn:Ee; cbn [bind] in H; try discriminate.
+  match type of H with (if ?c then _ else _) = _ => destruct c end; [|discriminate].
+  inversion H; subst. simpl. eapply decl_ext_trans; [eapply loop_iter_ext; eauto|].
+  apply He in Ee. exact Ee.
+Qed.
+
+Lemma check_decl_ext : forall s ret st st' J, check_stmt P true ret st s = Ok (st', J) -> decl_ext (decl st) (decl st').
+Proof.
+  induction s; intros ret st st' J H; simpl in H; destruct (cur st) as [fr|] eqn:Ec;
     try (inversion H; subst; apply decl_ext_refl; fail).
   - (* SAssign *)
     destruct (infer P true (decl st) fr e) as [xe| |]; simpl in H; try discriminate.
@@ -97,17 +116,39 @@ Proof.
     destruct (in_dom x (decl st)); [apply decl_ext_refl | apply decl_ext_app].
   - (* SIf *)
     destruct (infer P true (decl st) fr c) as [xc| |]; simpl in H; try discriminate.
-    destruct (check_stmt P true ret _ s1) as [r1| |] eqn:E1; simpl in H; try discriminate.
-    destruct (check_stmt P true ret _ s2) as [r2| |] eqn:E2; simpl in H; try discriminate.
+    destruct (check_stmt P true ret _ s1) as [[r1 J1]| |] eqn:E1; simpl in H; try discriminate.
+    destruct (check_stmt P true ret _ s2) as [[r2 J2]| |] eqn:E2; simpl in H; try discriminate.
     match type of H with (if ?c then _ else _) = _ => destruct c end; [discriminate|].
     inversion H; subst. simpl.
     apply IHs1 in E1. apply IHs2 in E2. simpl in *. eapply decl_ext_trans; eauto.
   - (* SWhile *)
-    assert (Hc : chk_ext (fun st0 => check_stmt P true ret st0 s)) by (intros st0 r Hr; eapply IHs; eauto).
-    destruct (loop_iter P true _ c 3 (decl st) fr) as [[[[d' V'] em] ch]| |] eqn:E; simpl in H; try discriminate.
-    destruct (loop_pass P true _ c d' V') as [[[[d2 V2] em2] ch2]| |]; simpl in H; try discriminate.
-    match type of H with (if ?c then _ else _) = _ => destruct c end; [|discriminate].
-    inversion H; subst. simpl. eapply loop_iter_ext; eauto.
+    eapply loop_tail_ext; [| |exact H].
+    + intros d0 V d' E J0 em Hp. cbv beta in Hp.
+      destruct (infer P true d0 V c) as [xc| |]; cbn [bind] in Hp; try discriminate.
+      destruct (check_stmt P true ret _ s1) as [[r1 J1]| |] eqn:E1; cbn [bind] in Hp; try discriminate.
+      match type of Hp with (if ?c then _ else _) = _ => destruct c end; [discriminate|].
+      inversion Hp; subst. apply IHs1 in E1. exact E1.
+    + intros st0 [r Jr] Hr. eapply IHs2; eauto.
+  - (* SRaise *)
+    match type of H with bind ?m _ = _ => destruct m as [xe| |] end; cbn [bind] in H; try discriminate.
+    destruct (subclass P c exc_id); inversion H; subst. apply decl_ext_refl.
+  - (* STry *)
+    destruct (check_stmt P true ret st s1) as [[rb Jb]| |] eqn:Eb; cbn [bind] in H; try discriminate.
+    destruct (negb (subclass P c exc_id)); [discriminate|].
+    cbn [fst snd] in H.
+    match type of H with bind ?m _ = _ => destruct m as [[dh Vh]| |] eqn:Ebv end; cbn [bind] in H; try discriminate.
+    destruct (check_stmt P true ret _ s2) as [[rh Jh]| |] eqn:Eh; cbn [bind] in H; try discriminate.
+    destruct (check_stmt P true ret _ s3) as [[re Je]| |] eqn:Ee; cbn [bind] in H; try discriminate.
+    match type of H with (if ?c then _ else _) = _ => destruct c end; [discriminate|].
+    inversion H; subst. cbn [decl fst snd] in *.
+    apply IHs1 in Eb. apply IHs2 in Eh. apply IHs3 in Ee. cbn [decl fst] in *.
+    assert (decl_ext (decl rb) dh).
+    { destruct x as [y|].
+      - destruct (bind_var P (decl rb) _ y (TInst c)) as [[d1 V1]| |] eqn:Bv; cbn [bind] in Ebv; try discriminate.
+        inversion Ebv; subst. eapply bind_var_ext; eauto.
+      - inversion Ebv; subst. apply decl_ext_refl. }
+    eapply decl_ext_trans; [exact Eb|]. eapply decl_ext_trans; [eassumption|].
+    eapply decl_ext_trans; eauto.
   - (* SReturn *)
     destruct (infer P true (decl st) fr e) as [xe| |]; simpl in H; try discriminate.
     destruct (is_subtype P (fst xe) ret); [inversion H; subst; apply decl_ext_refl | discriminate].
@@ -115,8 +156,9 @@ Proof.
     destruct (infer P true (decl st) fr e) as [xe| |]; simpl in H; try discriminate.
     inversion H; subst; apply decl_ext_refl.
   - (* SSeq *)
-    destruct (check_stmt P true ret st s1) as [st1| |] eqn:E1; simpl in H; try discriminate.
-    eapply decl_ext_trans; [eapply IHs1; eauto | eapply IHs2; eauto].
+    destruct (check_stmt P true ret st s1) as [[st1 J1]| |] eqn:E1; simpl in H; try discriminate.
+    destruct (check_stmt P true ret st1 s2) as [[st2 J2]| |] eqn:E2; simpl in H; try discriminate.
+    inversion H; subst. eapply decl_ext_trans; [eapply IHs1; eauto | eapply IHs2; eauto].
   - (* SExpr *)
     destruct (infer P true (decl st) fr e) as [xe| |]; simpl in H; try discriminate.
     inversion H; subst; apply decl_ext_refl.
@@ -216,200 +258,416 @@ Qed.
 Lemma frame_ok_nil : forall en, env_frame_ok P en [].
 Proof. intros en x t b v H. discriminate. Qed.
 
+
+(* ---- coverage and result transport *)
+Definition jincl (a b : jumps) : Prop := incl (brk a) (brk b) /\ incl (cnt a) (cnt b) /\ incl (exc a) (exc b).
+
+Lemma jincl_refl : forall a, jincl a a.
+Proof. intro a. repeat split; apply incl_refl. Qed.
+Lemma jincl_l : forall a b, jincl a (jcat a b).
+Proof. intros a b. repeat split; apply incl_appl; apply incl_refl. Qed.
+Lemma jincl_r : forall a b, jincl b (jcat a b).
+Proof. intros a b. repeat split; apply incl_appr; apply incl_refl. Qed.
+Lemma jincl_trans : forall a b c, jincl a b -> jincl b c -> jincl a c.
+Proof. intros a b c [A1 [A2 A3]] [B1 [B2 B3]]. repeat split; eapply incl_tran; eauto. Qed.
+
+Lemma covered_exc : forall en en' J J', covered P en en' J -> incl (exc J) (exc J') -> covered P en en' J'.
+Proof. intros en en' J J' [E|[f [Hi Hf]]] I; [left; exact E | right; exists f; split; auto]. Qed.
+
+Lemma covered_incl : forall en en' J J', covered P en en' J -> jincl J J' -> covered P en en' J'.
+Proof. intros en en' J J' H [_ [_ I]]. eapply covered_exc; eauto. Qed.
+
+Lemma covered_trans : forall en0 en en' J, covered P en0 en J -> covered P en en' J -> covered P en0 en' J.
+Proof. intros en0 en en' J H [E|H2]; [subst; exact H | right; exact H2]. Qed.
+
+Lemma result_weaken : forall ret en st1 J1 st' J o,
+  stmt_result_ok P ret en st1 J1 o ->
+  (forall en', o = Val (Normal en') -> env_ok P en' st1 -> env_ok P en' st') ->
+  decl_ext (decl st1) (decl st') -> jincl J1 J -> stmt_result_ok P ret en st' J o.
+Proof.
+  intros ret en st1 J1 st' J o H HN Hd Hj. pose proof Hj as [Ib [Ic Ie]].
+  destruct o as [[en'|en' v|en'|en'|en' w]|x|]; simpl in *; auto.
+  - destruct H as [A B]. split; [eapply HN; eauto | eapply covered_incl; eauto].
+  - destruct H as [A [B C]]. split; [exact A|]. split; [eapply env_decl_ext; eauto | eapply covered_incl; eauto].
+  - destruct H as [B [C [f [Hi Hf]]]]. split; [eapply env_decl_ext; eauto|]. split; [eapply covered_incl; eauto|]. exists f; split; auto.
+  - destruct H as [B [C [f [Hi Hf]]]]. split; [eapply env_decl_ext; eauto|]. split; [eapply covered_incl; eauto|]. exists f; split; auto.
+  - destruct H as [A [B C]]. split; [exact A|]. split; [eapply env_decl_ext; eauto | eapply covered_incl; eauto].
+Qed.
+
+Lemma result_shift : forall ret en0 en st' J o,
+  covered P en0 en J -> stmt_result_ok P ret en st' J o -> stmt_result_ok P ret en0 st' J o.
+Proof.
+  intros ret en0 en st' J o Hc H.
+  destruct o as [[en'|en' v|en'|en'|en' w]|x|]; simpl in *; auto.
+  - destruct H as [A B]. split; [exact A | eapply covered_trans; eauto].
+  - destruct H as [A [B C]]. repeat split; auto. eapply covered_trans; eauto.
+  - destruct H as [B [C D]]. repeat split; auto. eapply covered_trans; eauto.
+  - destruct H as [B [C D]]. repeat split; auto. eapply covered_trans; eauto.
+  - destruct H as [A [B C]]. repeat split; auto. eapply covered_trans; eauto.
+Qed.
+
+Lemma slift_ok : forall ret en o k st' J (Q : value -> Prop),
+  match o with Val v => Q v | Exn e => exn_ok P e | NoFuel => True end ->
+  env_decl_ok P en (decl st') ->
+  (forall v, Q v -> stmt_result_ok P ret en st' J (k v)) ->
+  stmt_result_ok P ret en st' J (slift en o k).
+Proof.
+  intros ret en o k st' J Q H Hd Hk. destruct o as [v|e|]; simpl; [apply Hk; exact H | | exact I].
+  destruct e; simpl in *; try exact H. split; [exact H|]. split; [exact Hd | left; reflexivity].
+Qed.
+
+(* removing a binding never invalidates a frame or the declarations *)
+Lemma frame_ok_remove : forall en f y, env_frame_ok P en f -> env_frame_ok P (remove en y) f.
+Proof.
+  intros en f y H x t b v Hl He. destruct (Nat.eq_dec x y) as [->|Hn].
+  - rewrite lookup_remove_eq in He. discriminate.
+  - rewrite lookup_remove_neq in He by assumption. eapply H; eauto.
+Qed.
+
+Lemma decl_ok_remove : forall en d y, env_decl_ok P en d -> env_decl_ok P (remove en y) d.
+Proof.
+  intros en d y H x v He. destruct (Nat.eq_dec x y) as [->|Hn].
+  - rewrite lookup_remove_eq in He. discriminate.
+  - rewrite lookup_remove_neq in He by assumption. eauto.
+Qed.
+
+Lemma frame_remove_ok : forall en f y, env_frame_ok P en f -> env_frame_ok P en (remove f y).
+Proof.
+  intros en f y H x t b v Hl He. destruct (Nat.eq_dec x y) as [->|Hn].
+  - rewrite lookup_remove_eq in Hl. discriminate.
+  - rewrite lookup_remove_neq in Hl by assumption. eapply H; eauto.
+Qed.
+
+Lemma in_jump_opts : forall f l, In f l -> In (Some f) (jump_opts l).
+Proof. intros f l H. unfold jump_opts. apply in_map. exact H. Qed.
+
+Lemma bind_var_sound : forall en d V x t d' V' w, bind_var P d V x t = Ok (d', V') ->
+  env_decl_ok P en d -> env_frame_ok P en V -> mem P w t ->
+  env_decl_ok P (update en x w) d' /\ env_frame_ok P (update en x w) V'.
+Proof.
+  intros en d V x t d' V' w H Hd Hf Hw. unfold bind_var in H.
+  destruct (lookup d x) as [dt|] eqn:El.
+  - destruct (is_subtype P t dt) eqn:Es; inversion H; subst. split.
+    + eapply env_update_decl; eauto. eapply subtype_sound; eauto.
+    + apply env_update_frame_set; assumption.
+  - inversion H; subst. split.
+    + eapply env_update_decl; [eapply env_decl_ext; [exact Hd | apply decl_ext_app] | | exact Hw].
+      rewrite lookup_app_none by assumption. rewrite Nat.eqb_refl. reflexivity.
+    + apply env_update_frame_remove; assumption.
+Qed.
+
 Definition sound_upto (f : nat) : Prop := forall f', f' <= f -> expr_ok_at P f' /\ stmt_ok_at P f'.
 
-Lemma loop_sound : forall f c b ret d' V' d2 V2 em2 ch2,
+Lemma while_sound : forall f c b els ret fr d' V' tc im em2 r1 J2 ste Je st' Jout,
   sound_upto f ->
-  loop_pass P true (fun st0 => check_stmt P true ret st0 b) c d' V' = Ok (d2, V2, em2, ch2) ->
-  decls_eqb P d2 d' = true -> stable P V' V2 = true ->
-  forall k, k <= S f -> forall en, env_decl_ok P en d' -> env_frame_ok P en V' ->
-    match exec P k en (SWhile c b) with
-    | Val (Normal en') => env_decl_ok P en' d' /\ exists m2, em2 = Some m2 /\ env_frame_ok P en' (push V' m2 true)
-    | Val (Returned v) => mem P v ret
-    | Exn e => type_failure e = false
-    | NoFuel => True
-    end.
+  infer P true d' V' c = Ok (tc, (im, em2)) ->
+  check_stmt P true ret {| decl := d'; cur := push_map (Some V') im false |} b = Ok (r1, J2) ->
+  let o1 := [cur r1; push_map (Some V') em2 false] in
+  let o2 := Some V' :: jump_opts (cnt J2) ++ [merge P V' o1] in
+  let o := cur ste :: jump_opts (brk J2) in
+  merge_cert P (merge P V' o1) o1 = true -> merge_cert P (merge P V' o2) o2 = true ->
+  stable P V' (unwrap_frame (merge P V' o2)) = true -> decls_eqb P (decl r1) d' = true ->
+  check_stmt P true ret {| decl := d'; cur := push_map (Some V') em2 true |} els = Ok (ste, Je) ->
+  merge_cert P (merge P fr o) o = true ->
+  st' = {| decl := decl ste; cur := merge P fr o |} -> incl (exc J2) (exc Jout) -> jincl Je Jout ->
+  forall k, k <= S f -> forall en0 en1, env_decl_ok P en1 d' -> env_frame_ok P en1 V' -> covered P en0 en1 Jout ->
+    stmt_result_ok P ret en0 st' Jout (exec P k en1 (SWhile c b els)).
 Proof.
-  intros f c b ret d' V' d2 V2 em2 ch2 HS Hpass Heq Hst.
-  unfold loop_pass in Hpass.
-  destruct (infer P true d' V' c) as [[tc [im em]]| |] eqn:Einf; cbn [bind fst snd andb] in Hpass; try discriminate.
-  destruct (check_stmt P true ret _ b) as [r1| |] eqn:Ec1; cbn [bind fst snd andb] in Hpass; try discriminate.
-  match type of Hpass with (if ?cnd then _ else _) = _ => destruct cnd eqn:Ecert end; [discriminate|].
-  inversion Hpass; subst. clear Hpass.
-  apply negb_false_iff in Ecert. apply andb_prop in Ecert. destruct Ecert as [Cert1 Cert2].
-  induction k as [|k IHk]; intros Hk en Hd Hf; [exact I|].
+  intros f c b els ret fr d' V' tc im em2 r1 J2 ste Je st' Jout HS Hc Hb o1 o2 o Cert1 Cert2 Hst Heq He Cm Est HJ2 HJe.
+  assert (Hde : decl_ext d' (decl ste)) by (apply check_decl_ext in He; exact He).
+  induction k as [|k IHk]; intros Hk en0 en1 Hd Hf Hcov; [exact I|].
   assert (Hk' : k <= f) by lia. destruct (HS k Hk') as [EO SO].
   simpl.
-  pose proof (EO c d' V' tc (im, em2) en Einf Hd Hf) as Rc.
-  destruct (eval P k en c) as [v|x|]; simpl in Rc |- *; [|exact Rc|exact I].
-  destruct Rc as [_ [RT RF]]. destruct (truthy v) eqn:Tv.
-  - destruct (RT eq_refl) as [m1 [Em1 Mok1]]. simpl in Em1. subst im. simpl in Ec1.
-    pose proof (SO b ret _ r1 en Ec1 (conj Hd (push_ok P _ _ _ false Hf Mok1))) as Rb.
-    destruct (exec P k en b) as [[en1|w]|x|]; simpl in Rb |- *; [|exact Rb|exact Rb|exact I].
-    destruct Rb as [Hd1 Hc1]. destruct (cur r1) as [f1|] eqn:Er1; [|contradiction].
-    destruct (merge_sound en1 V' _ f1 Cert1 (or_introl eq_refl) Hc1) as [e1 [Ee1 He1]].
-    rewrite Ee1 in Cert2.
-    destruct (merge_sound en1 V' _ e1 Cert2 (or_intror (or_introl eq_refl)) He1) as [v2 [Ev2 Hv2]].
-    change (stable P V' (unwrap_frame (merge P V' [Some V'; merge P V' [Some f1; push_map (Some V') em2 false]])) = true) in Hst.
-    rewrite Ee1, Ev2 in Hst. simpl in Hst.
-    apply IHk; [lia | eapply env_decl_eqb; eauto | eapply stable_sound; eauto].
-  - destruct (RF eq_refl) as [m2 [Em2 Mok2]]. simpl in Em2. subst em2.
-    split; [exact Hd|]. exists m2. split; [reflexivity | apply push_ok; assumption].
+  assert (Hd' : env_decl_ok P en1 (decl st')) by (subst st'; simpl; eapply env_decl_ext; eauto).
+  eapply result_shift; [exact Hcov|].
+  eapply slift_ok with (Q := fun v => mem P v tc /\ maps_ok P en1 v (im, em2)).
+  { pose proof (EO c d' V' tc (im, em2) en1 Hc Hd Hf) as Rc. destruct (eval P k en1 c); exact Rc. }
+  { exact Hd'. }
+  intros v [_ [RT RF]]. destruct (truthy v) eqn:Tv.
+  - destruct (RT eq_refl) as [m1 [Em1 Mok1]]. simpl in Em1. subst im. simpl in Hb.
+    pose proof (SO b ret _ r1 J2 en1 Hb (conj Hd (push_ok P _ _ _ false Hf Mok1))) as Rb.
+    destruct (exec P k en1 b) as [[en2|en2 w|en2|en2|en2 w]|x|]; simpl in Rb |- *; [| | | | |exact Rb|exact I].
+    + (* Normal: next iteration *)
+      destruct Rb as [[Hd2 Hc2] Hcv]. destruct (cur r1) as [f1|] eqn:Er1; [|contradiction].
+      destruct (merge_sound en2 V' o1 f1 Cert1 (or_introl eq_refl) Hc2) as [e1 [Ee1 He1]].
+      assert (Hin : In (Some e1) o2).
+      { unfold o2. right. apply in_or_app. right. left. exact Ee1. }
+      destruct (merge_sound en2 V' o2 e1 Cert2 Hin He1) as [v2 [Ev2 Hv2]].
+      rewrite Ev2 in Hst. simpl in Hst.
+      eapply result_shift; [eapply covered_exc; [exact Hcv | exact HJ2]|].
+      apply IHk; [lia | eapply env_decl_eqb; eauto | eapply stable_sound; eauto | left; reflexivity].
+    + (* Returned *)
+      destruct Rb as [Mv [Hd2 Hcv]]. split; [exact Mv|]. split.
+      * subst st'. simpl. eapply env_decl_ext; [eapply env_decl_eqb; eauto | exact Hde].
+      * eapply covered_exc; eauto.
+    + (* Broke: the loop ends, else is skipped *)
+      destruct Rb as [Hd2 [Hcv [fb [Hib Hfb]]]].
+      assert (Hin : In (Some fb) o) by (unfold o; right; apply in_jump_opts; exact Hib).
+      destruct (merge_sound en2 fr o fb Cm Hin Hfb) as [mg [Emg Hmg]].
+      split.
+      * subst st'. unfold env_ok; cbn [decl cur]. rewrite Emg. split; [|exact Hmg].
+        eapply env_decl_ext; [eapply env_decl_eqb; eauto | exact Hde].
+      * eapply covered_exc; eauto.
+    + (* Continued: next iteration *)
+      destruct Rb as [Hd2 [Hcv [fc [Hic Hfc]]]].
+      assert (Hin : In (Some fc) o2).
+      { unfold o2. right. apply in_or_app. left. apply in_jump_opts. exact Hic. }
+      destruct (merge_sound en2 V' o2 fc Cert2 Hin Hfc) as [v2 [Ev2 Hv2]].
+      rewrite Ev2 in Hst. simpl in Hst.
+      eapply result_shift; [eapply covered_exc; [exact Hcv | exact HJ2]|].
+      apply IHk; [lia | eapply env_decl_eqb; eauto | eapply stable_sound; eauto | left; reflexivity].
+    + (* Raised *)
+      destruct Rb as [Mw [Hd2 Hcv]]. split; [exact Mw|]. split.
+      * subst st'. simpl. eapply env_decl_ext; [eapply env_decl_eqb; eauto | exact Hde].
+      * eapply covered_exc; eauto.
+  - (* exit: else clause *)
+    destruct (RF eq_refl) as [m2 [Em2 Mok2]]. simpl in Em2. subst em2. simpl in He.
+    pose proof (SO els ret _ ste Je en1 He (conj Hd (push_ok P _ _ _ true Hf Mok2))) as Re.
+    eapply result_weaken; [exact Re | | subst st'; apply decl_ext_refl | exact HJe].
+    intros en' _ [Hd2 Hc2]. destruct (cur ste) as [fe|] eqn:Ece; [|contradiction].
+    destruct (merge_sound en' fr o fe Cm (or_introl eq_refl) Hc2) as [mg [Emg Hmg]].
+    subst st'. unfold env_ok; cbn [decl cur]. rewrite Emg. split; assumption.
 Qed.
+
+Lemma normal_ok : forall ret en st' J, env_ok P en st' -> stmt_result_ok P ret en st' J (Val (Normal en)).
+Proof. intros. simpl. split; [assumption | left; reflexivity]. Qed.
 
 Lemma stmt_step : forall f, sound_upto f -> stmt_ok_at P (S f).
 Proof.
   intros f HS. destruct (HS f (le_n f)) as [EO SO].
-  intros s ret st st' en Hc [Hd Hfr].
+  intros s ret st st' J en Hc [Hd Hfr].
   destruct (cur st) as [fr|] eqn:Ecur; [|contradiction].
+  assert (Hst0 : env_ok P en st) by (split; [exact Hd | rewrite Ecur; exact Hfr]).
   destruct s; simpl in Hc; rewrite Ecur in Hc; simpl exec.
   - (* SAssign *)
     destruct (infer P true (decl st) fr e) as [[te m]| |] eqn:Ei; simpl in Hc; try discriminate.
-    pose proof (EO e _ _ _ _ en Ei Hd Hfr) as Re.
-    destruct (eval P f en e) as [v|x0|]; simpl in *; [|exact Re|exact I]. destruct Re as [Mv _].
     destruct (lookup (decl st) x) as [dt|] eqn:El; [|discriminate].
     destruct (is_subtype P te dt) eqn:Es; [|destruct (is_none_lit e); discriminate].
-    inversion Hc; subst. split; simpl.
-    + eapply env_update_decl; eauto. eapply subtype_sound; eauto.
-    + apply env_update_frame_set; assumption.
+    inversion Hc; subst. clear Hc.
+    eapply slift_ok with (Q := fun v => mem P v te /\ maps_ok P en v m); [|exact Hd|].
+    { pose proof (EO e _ _ _ _ en Ei Hd Hfr) as Re. destruct (eval P f en e); exact Re. }
+    intros v [Mv _]. simpl.
+    assert (Hf2 : env_frame_ok P (update en x v) (update fr x (te, true))) by (apply env_update_frame_set; assumption).
+    split; [split; simpl; [eapply env_update_decl; eauto; eapply subtype_sound; eauto | exact Hf2]|].
+    right. eexists; split; [left; reflexivity | exact Hf2].
   - (* SDef *)
     destruct (infer P true (decl st) fr e) as [[te m]| |] eqn:Ei; simpl in Hc; try discriminate.
-    pose proof (EO e _ _ _ _ en Ei Hd Hfr) as Re.
-    destruct (eval P f en e) as [v|x0|]; simpl in *; [|exact Re|exact I]. destruct Re as [Mv _].
     destruct (is_none_ty te || is_never te); [discriminate|].
+    assert (Hf2 : forall v, env_frame_ok P (update en x v) (remove fr x)) by (intro v; apply env_update_frame_remove; assumption).
     destruct (lookup (decl st) x) as [dt|] eqn:El.
-    + destruct (ty_same P te dt) eqn:Es; [|discriminate]. inversion Hc; subst. split; simpl.
-      * eapply env_update_decl; eauto. unfold ty_same in Es. apply andb_prop in Es. destruct Es as [Es _].
-        eapply subtype_sound; eauto.
-      * apply env_update_frame_remove; assumption.
-    + inversion Hc; subst. split; simpl.
-      * eapply env_update_decl; [eapply env_decl_ext; [exact Hd | apply decl_ext_app] | | exact Mv].
-        rewrite lookup_app_none by assumption. rewrite Nat.eqb_refl. reflexivity.
-      * apply env_update_frame_remove; assumption.
+    + destruct (ty_same P te dt) eqn:Es; [|discriminate]. inversion Hc; subst. clear Hc.
+      eapply slift_ok with (Q := fun v => mem P v te /\ maps_ok P en v m); [|exact Hd|].
+      { pose proof (EO e _ _ _ _ en Ei Hd Hfr) as Re. destruct (eval P f en e); exact Re. }
+      intros v [Mv _]. simpl. split; [split; simpl; [|apply Hf2]|right; eexists; split; [left; reflexivity | apply Hf2]].
+      eapply env_update_decl; eauto. unfold ty_same in Es. apply andb_prop in Es. destruct Es as [Es _].
+      eapply subtype_sound; eauto.
+    + inversion Hc; subst. clear Hc.
+      eapply slift_ok with (Q := fun v => mem P v te /\ maps_ok P en v m); [|simpl; eapply env_decl_ext; [exact Hd | apply decl_ext_app]|].
+      { pose proof (EO e _ _ _ _ en Ei Hd Hfr) as Re. destruct (eval P f en e); exact Re. }
+      intros v [Mv _]. simpl. split; [split; simpl; [|apply Hf2]|right; eexists; split; [left; reflexivity | apply Hf2]].
+      eapply env_update_decl; [eapply env_decl_ext; [exact Hd | apply decl_ext_app] | | exact Mv].
+      rewrite lookup_app_none by assumption. rewrite Nat.eqb_refl. reflexivity.
   - (* SDecl *)
     set (d1 := if in_dom x (decl st) then decl st else decl st ++ [(x, t)]) in *.
     assert (Hd1 : env_decl_ok P en d1).
     { unfold d1. destruct (in_dom x (decl st)); [exact Hd | eapply env_decl_ext; [exact Hd | apply decl_ext_app]]. }
     destruct (infer P true d1 fr e) as [[te m]| |] eqn:Ei; simpl in Hc; try discriminate.
-    pose proof (EO e _ _ _ _ en Ei Hd1 Hfr) as Re.
-    destruct (eval P f en e) as [v|x0|]; simpl in *; [|exact Re|exact I]. destruct Re as [Mv _].
     destruct (lookup d1 x) as [t1|] eqn:El; [|discriminate].
-    destruct (is_subtype P te t1) eqn:Es; [|discriminate]. inversion Hc; subst. split; simpl.
-    + eapply env_update_decl; eauto. eapply subtype_sound; eauto.
-    + apply env_update_frame_remove; assumption.
+    destruct (is_subtype P te t1) eqn:Es; [|discriminate]. inversion Hc; subst. clear Hc.
+    eapply slift_ok with (Q := fun v => mem P v te /\ maps_ok P en v m); [|exact Hd1|].
+    { pose proof (EO e _ _ _ _ en Ei Hd1 Hfr) as Re. destruct (eval P f en e); exact Re. }
+    intros v [Mv _]. simpl.
+    assert (Hf2 : env_frame_ok P (update en x v) (remove fr x)) by (apply env_update_frame_remove; assumption).
+    split; [split; simpl; [eapply env_update_decl; eauto; eapply subtype_sound; eauto | exact Hf2]|].
+    right. eexists; split; [left; reflexivity | exact Hf2].
   - (* SIf *)
     destruct (infer P true (decl st) fr c) as [[tc [im em]]| |] eqn:Ei; simpl in Hc; try discriminate.
-    destruct (check_stmt P true ret _ s1) as [r1| |] eqn:E1; simpl in Hc; try discriminate.
-    destruct (check_stmt P true ret _ s2) as [r2| |] eqn:E2; simpl in Hc; try discriminate.
+    destruct (check_stmt P true ret _ s1) as [[r1 J1]| |] eqn:E1; simpl in Hc; try discriminate.
+    destruct (check_stmt P true ret _ s2) as [[r2 J2]| |] eqn:E2; simpl in Hc; try discriminate.
     match type of Hc with (if ?cnd then _ else _) = _ => destruct cnd eqn:Ecert end; [discriminate|].
     inversion Hc; subst. clear Hc. apply negb_false_iff in Ecert.
-    pose proof (EO c _ _ _ _ en Ei Hd Hfr) as Rc.
-    destruct (eval P f en c) as [v|x0|]; simpl in *; [|exact Rc|exact I].
-    destruct Rc as [_ [RT RF]]. destruct (truthy v) eqn:Tv.
+    assert (X1 : decl_ext (decl st) (decl r1)) by (apply check_decl_ext in E1; exact E1).
+    assert (X2 : decl_ext (decl r1) (decl r2)) by (apply check_decl_ext in E2; exact E2).
+    eapply slift_ok with (Q := fun v => mem P v tc /\ maps_ok P en v (im, em));
+      [|simpl; eapply env_decl_ext; [exact Hd | eapply decl_ext_trans; eauto]|].
+    { pose proof (EO c _ _ _ _ en Ei Hd Hfr) as Rc. destruct (eval P f en c); exact Rc. }
+    intros v [_ [RT RF]]. destruct (truthy v) eqn:Tv.
     + destruct (RT eq_refl) as [m1 [Em1 Mok1]]. simpl in Em1. subst im. simpl in E1.
-      pose proof (SO s1 ret _ r1 en E1 (conj Hd (push_ok P _ _ _ false Hfr Mok1))) as Rb.
-      destruct (exec P f en s1) as [[en1|w]|x0|]; simpl in *; [|exact Rb|exact Rb|exact I].
-      destruct Rb as [Hdr Hcr]. destruct (cur r1) as [f1|] eqn:Er1; [|contradiction].
-      destruct (merge_sound en1 fr _ f1 Ecert (or_introl eq_refl) Hcr) as [mg [Emg Hmg]].
-      unfold env_ok; cbn [decl cur]. rewrite Emg. split; [|exact Hmg].
-      eapply env_decl_ext; [exact Hdr|]. apply check_decl_ext in E2. exact E2.
+      pose proof (SO s1 ret _ r1 J1 en E1 (conj Hd (push_ok P _ _ _ false Hfr Mok1))) as Rb.
+      eapply result_weaken; [exact Rb | | exact X2 | apply jincl_l].
+      intros en' _ [Hdr Hcr]. destruct (cur r1) as [f1|] eqn:Er1; [|contradiction].
+      destruct (merge_sound en' fr _ f1 Ecert (or_introl eq_refl) Hcr) as [mg [Emg Hmg]].
+      unfold env_ok; cbn [decl cur]. rewrite Emg. split; [eapply env_decl_ext; eauto | exact Hmg].
     + destruct (RF eq_refl) as [m2 [Em2 Mok2]]. simpl in Em2. subst em. simpl in E2.
-      assert (Hd2 : env_decl_ok P en (decl r1)).
-      { eapply env_decl_ext; [exact Hd|]. apply check_decl_ext in E1. exact E1. }
-      pose proof (SO s2 ret _ r2 en E2 (conj Hd2 (push_ok P _ _ _ false Hfr Mok2))) as Rb.
-      destruct (exec P f en s2) as [[en1|w]|x0|]; simpl in *; [|exact Rb|exact Rb|exact I].
-      destruct Rb as [Hdr Hcr]. destruct (cur r2) as [f2|] eqn:Er2; [|contradiction].
-      destruct (merge_sound en1 fr _ f2 Ecert (or_intror (or_introl eq_refl)) Hcr) as [mg [Emg Hmg]].
-      unfold env_ok; cbn [decl cur]. rewrite Emg. split; [exact Hdr | exact Hmg].
+      pose proof (SO s2 ret _ r2 J2 en E2 (conj (env_decl_ext _ _ _ Hd X1) (push_ok P _ _ _ false Hfr Mok2))) as Rb.
+      eapply result_weaken; [exact Rb | | apply decl_ext_refl | apply jincl_r].
+      intros en' _ [Hdr Hcr]. destruct (cur r2) as [f2|] eqn:Er2; [|contradiction].
+      destruct (merge_sound en' fr _ f2 Ecert (or_intror (or_introl eq_refl)) Hcr) as [mg [Emg Hmg]].
+      unfold env_ok; cbn [decl cur]. rewrite Emg. split; assumption.
   - (* SWhile *)
-    destruct (loop_iter P true _ c 3 (decl st) fr) as [[[[d' V'] em] ch]| |] eqn:Eit; simpl in Hc; try discriminate.
-    destruct (loop_pass P true _ c d' V') as [[[[d2 V2] em2] ch2]| |] eqn:Epass; simpl in Hc; try discriminate.
+    unfold check_loop_tail in Hc.
+    match type of Hc with bind ?m _ = _ => destruct m as [[[[[d' V'] Jt] em] aps]| |] eqn:Eit end; cbn [bind] in Hc; try discriminate.
+    match type of Hc with bind ?m _ = _ => destruct m as [[[[[d2 V2] J2] em2] ch2]| |] eqn:Epass end; cbn [bind] in Hc; try discriminate.
+    destruct (check_stmt P true ret _ s2) as [[ste Je]| |] eqn:Ee; cbn [bind] in Hc; try discriminate.
     match type of Hc with (if ?cnd then _ else _) = _ => destruct cnd eqn:Ecert end; [|discriminate].
     inversion Hc; subst. clear Hc.
     apply andb_prop in Ecert. destruct Ecert as [Ecert Cm]. apply andb_prop in Ecert. destruct Ecert as [Ecert Cv].
     apply andb_prop in Ecert. destruct Ecert as [Cd Cs].
+    unfold loop_pass in Epass.
+    destruct (infer P true d' V' c) as [[tc [im emx]]| |] eqn:Einf; cbn [bind fst snd] in Epass; try discriminate.
+    destruct (check_stmt P true ret _ s1) as [[r1 Jb]| |] eqn:Eb; cbn [bind fst snd] in Epass; try discriminate.
+    match type of Epass with context [if ?cnd then Unsup else _] => destruct cnd eqn:Ec1 end; cbn [bind] in Epass; [discriminate|].
+    match type of Epass with (if ?cnd then _ else _) = _ => destruct cnd eqn:Ec2 end; [discriminate|].
+    inversion Epass; subst. clear Epass.
+    simpl in Ec1, Ec2. apply negb_false_iff in Ec1. apply negb_false_iff in Ec2.
     assert (Hext : decl_ext (decl st) d').
-    { eapply loop_iter_ext; [|exact Eit]. intros st0 r Hr. eapply check_decl_ext; eauto. }
-    pose proof (loop_sound f c s ret d' V' d2 V2 em2 ch2 HS Epass Cd Cs (S f) (le_n _) en
-                  (env_decl_ext _ _ _ Hd Hext) (view_le_sound _ _ _ _ Cv Hd Hfr)) as RL.
-    simpl in RL.
-    destruct (eval P f en c) as [v|x0|]; simpl in *; [|exact RL|exact I].
-    match goal with |- stmt_result_ok _ _ _ ?o => destruct o as [[en1|w]|x0|] end; simpl in *; try exact RL.
-    destruct RL as [Hd1 [m2 [Em2 Hf2]]]. subst em2. simpl in Cm.
-    destruct (merge_sound en1 fr _ _ Cm (or_introl eq_refl) Hf2) as [mg [Emg Hmg]].
-    unfold env_ok; cbn [decl cur]. rewrite Emg. split; [exact Hd1 | exact Hmg].
+    { eapply loop_iter_ext; [|exact Eit]. intros d0 V0 d1 E0 J0 em0 Hp. cbv beta in Hp.
+      destruct (infer P true d0 V0 c) as [xc| |]; cbn [bind] in Hp; try discriminate.
+      match type of Hp with bind ?m _ = _ => destruct m as [[rr Jr]| |] eqn:Er end; cbn [bind] in Hp; try discriminate.
+      simpl in Hp.
+      match type of Hp with context [if ?cnd then Unsup else _] => destruct cnd end; [discriminate|].
+      inversion Hp; subst. apply check_decl_ext in Er. exact Er. }
+    eapply (while_sound f c s1 s2 ret fr d' V' tc im em2 r1 J2 ste Je _ _ HS Einf Eb Ec1 Ec2 Cs Cd Ee Cm eq_refl);
+      [simpl; apply incl_appl; apply incl_refl | | apply le_n | eapply env_decl_ext; eauto
+       | eapply view_le_sound; eauto | left; reflexivity].
+    repeat split; simpl; try apply incl_refl. apply incl_appr. apply incl_refl.
+  - (* SFor *) discriminate.
+  - (* SBreak *)
+    inversion Hc; subst. simpl. split; [exact Hd|]. split; [left; reflexivity|]. exists fr. split; [left; reflexivity | exact Hfr].
+  - (* SContinue *)
+    inversion Hc; subst. simpl. split; [exact Hd|]. split; [left; reflexivity|]. exists fr. split; [left; reflexivity | exact Hfr].
+  - (* SRaise *)
+    match type of Hc with bind ?m _ = _ => destruct m as [[te m0]| |] eqn:Ei end; cbn [bind] in Hc; try discriminate.
+    destruct (subclass P c exc_id) eqn:Esub; [|discriminate]. inversion Hc; subst. clear Hc.
+    change (stmt_result_ok P ret en {| decl := decl st; cur := None |} j0
+              (slift en (eval P f en (ENew c args)) (fun w => if catches P exc_id w then Val (Raised en w) else Exn TypeError))).
+    assert (Et : te = TInst c).
+    { change (infer P true (decl st) fr (ENew c args) = Ok (te, m0)) in Ei. rewrite infer_new in Ei.
+      destruct (fields_of P c); [|discriminate]. destruct (infer_list P true (decl st) fr args); cbn [bind] in Ei; try discriminate.
+      destruct (check_args P l0 l); inversion Ei; reflexivity. }
+    subst te.
+    eapply slift_ok with (Q := fun v => mem P v (TInst c) /\ maps_ok P en v m0); [|exact Hd|].
+    { pose proof (EO (ENew c args) _ _ _ _ en Ei Hd Hfr) as Re. destruct (eval P f en (ENew c args)); exact Re. }
+    intros w [Mw _]. inversion Mw as [ | | | | | | |c0 dc fs fds Hs Hfd Hmf]; subst. simpl.
+    rewrite (Htrans _ _ _ Hs Esub). simpl. split; [econstructor; eauto|]. split; [exact Hd | left; reflexivity].
+  - (* STry *)
+    destruct (check_stmt P true ret st s1) as [[rb Jb]| |] eqn:Eb; cbn [bind] in Hc; try discriminate.
+    destruct (subclass P c exc_id) eqn:Esub; cbn [negb] in Hc; [|discriminate].
+    cbn [fst snd] in Hc.
+    match type of Hc with bind ?m _ = _ => destruct m as [[dh Vh]| |] eqn:Ebv end; cbn [bind] in Hc; try discriminate.
+    destruct (check_stmt P true ret _ s2) as [[rh Jh]| |] eqn:Eh; cbn [bind] in Hc; try discriminate.
+    destruct (check_stmt P true ret _ s3) as [[re Je]| |] eqn:Ee; cbn [bind] in Hc; try discriminate.
+    match type of Hc with (if ?cnd then _ else _) = _ => destruct cnd eqn:Ecert end; [discriminate|].
+    inversion Hc; subst. clear Hc. cbn [fst snd decl cur] in *.
+    simpl in Ecert. apply negb_false_iff in Ecert. apply andb_prop in Ecert. destruct Ecert as [Ecert Cmg].
+    apply andb_prop in Ecert. destruct Ecert as [Cmh Cme].
+    assert (Xb : decl_ext (decl st) (decl rb)) by (apply check_decl_ext in Eb; exact Eb).
+    assert (Xh : decl_ext dh (decl rh)) by (apply check_decl_ext in Eh; exact Eh).
+    assert (Xe : decl_ext (decl rh) (decl re)) by (apply check_decl_ext in Ee; exact Ee).
+    assert (Xv : decl_ext (decl rb) dh).
+    { destruct x as [y|].
+      - destruct (bind_var P (decl rb) _ y (TInst c)) as [[d1 V1]| |] eqn:Bv; cbn [bind] in Ebv; try discriminate.
+        inversion Ebv; subst. eapply bind_var_ext; eauto.
+      - inversion Ebv; subst. apply decl_ext_refl. }
+    set (Jout := jcat Jb (jcat (jexc Vh []) (jcat Jh (jcat _ Je)))).
+    assert (IJb : jincl Jb Jout) by apply jincl_l.
+    assert (IJh : jincl Jh Jout) by (eapply jincl_trans; [|apply jincl_r]; eapply jincl_trans; [|apply jincl_r]; apply jincl_l).
+    assert (IJe : jincl Je Jout) by (do 4 (eapply jincl_trans; [|apply jincl_r]); apply jincl_refl).
+    assert (IVh : In Vh (exc Jout)) by (simpl; apply in_or_app; right; left; reflexivity).
+    pose proof (SO s1 ret st rb Jb en Eb Hst0) as Rb.
+    destruct (exec P f en s1) as [[en1|en1 w|en1|en1|en1 w]|xx|]; [| | | | | |exact I].
+    + (* the body fell through: else clause *)
+      destruct Rb as [[Hd1 Hc1] Hcv]. destruct (cur rb) as [f1|] eqn:Er1; [|contradiction].
+      destruct (merge_sound en1 fr _ f1 Cme (or_introl eq_refl) Hc1) as [me [Eme Hme]].
+      rewrite Eme in Ee.
+      pose proof (SO s3 ret _ re Je en1 Ee (conj (env_decl_ext _ _ _ Hd1 (decl_ext_trans _ _ _ Xv Xh)) Hme)) as Re.
+      eapply result_shift; [eapply covered_incl; [exact Hcv | exact IJb]|].
+      eapply result_weaken; [exact Re | | apply decl_ext_refl | exact IJe].
+      intros en' _ [Hd2 Hc2]. destruct (cur re) as [fe|] eqn:Ece; [|contradiction].
+      destruct (merge_sound en' fr _ fe Cmg (or_introl eq_refl) Hc2) as [mg [Emg Hmg]].
+      unfold env_ok; cbn [decl cur]. rewrite Emg. split; assumption.
+    + eapply result_weaken; [exact Rb | intros ? E; discriminate E | eapply decl_ext_trans; [exact Xv|eapply decl_ext_trans; eauto] | exact IJb].
+    + eapply result_weaken; [exact Rb | intros ? E; discriminate E | eapply decl_ext_trans; [exact Xv|eapply decl_ext_trans; eauto] | exact IJb].
+    + eapply result_weaken; [exact Rb | intros ? E; discriminate E | eapply decl_ext_trans; [exact Xv|eapply decl_ext_trans; eauto] | exact IJb].
+    + (* Raised *)
+      destruct (catches P c w) eqn:Ecat.
+      * destruct Rb as [Mw [Hd1 Hcv]].
+        destruct w as [| | | | |dc fs]; simpl in Ecat; try discriminate.
+        destruct (obj_wf P _ _ Mw _ _ eq_refl) as [fds [Hfd Hmf]].
+        assert (Mc : mem P (VObj dc fs) (TInst c)) by (econstructor; eauto).
+        (* the environment at the raise satisfies the handler frame *)
+        assert (Hh : exists mhf, merge P fr (Some fr :: jump_opts (exc Jb)) = Some mhf /\ env_frame_ok P en1 mhf).
+        { destruct Hcv as [->|[fs0 [Hi Hf0]]].
+          - eapply merge_sound; [exact Cmh | left; reflexivity | exact Hfr].
+          - eapply merge_sound; [exact Cmh | right; apply in_jump_opts; exact Hi | exact Hf0]. }
+        destruct Hh as [mhf [Emh Hmh]]. rewrite Emh in Ebv. simpl in Ebv.
+        assert (Hbind : env_decl_ok P (bind_opt en1 x (VObj dc fs)) dh /\ env_frame_ok P (bind_opt en1 x (VObj dc fs)) Vh).
+        { destruct x as [y|]; simpl.
+          - destruct (bind_var P (decl rb) mhf y (TInst c)) as [[d1 V1]| |] eqn:Bv; cbn [bind] in Ebv; try discriminate.
+            inversion Ebv; subst. eapply bind_var_sound; eauto.
+          - inversion Ebv; subst. split; assumption. }
+        destruct Hbind as [Hdh Hfh].
+        pose proof (SO s2 ret _ rh Jh _ Eh (conj Hdh Hfh)) as Rh.
+        assert (Cv0 : forall en', env_frame_ok P en' Vh -> covered P en en' Jout).
+        { intros en' Hx. right. exists Vh. split; assumption. }
+        destruct (exec P f (bind_opt en1 x (VObj dc fs)) s2) as [[en2|en2 v|en2|en2|en2 v]|xx|]; simpl obind; [| | | | |exact Rh|exact I].
+        -- (* handler fell through *)
+           destruct Rh as [[Hd2 Hc2] Hcv2]. destruct (cur rh) as [fh|] eqn:Erh; [|contradiction].
+           assert (Hrem : env_decl_ok P (env_of (unbind_opt x (Normal en2))) (decl re) /\
+                          exists fhe, (match x with Some y => Some (remove fh y) | None => Some fh end) = Some fhe /\
+                                      env_frame_ok P (env_of (unbind_opt x (Normal en2))) fhe).
+           { destruct x as [y|]; simpl.
+             - split; [apply decl_ok_remove; eapply env_decl_ext; eauto|]. eexists; split; [reflexivity|].
+               apply frame_ok_remove. apply frame_remove_ok. exact Hc2.
+             - split; [eapply env_decl_ext; eauto|]. eexists; split; [reflexivity | exact Hc2]. }
+           destruct Hrem as [Hdr [fhe [Efhe Hfhe]]].
+           assert (Eu : unbind_opt x (Normal en2) = Normal (env_of (unbind_opt x (Normal en2)))) by (destruct x; reflexivity).
+           rewrite Eu. simpl.
+           destruct (merge_sound _ fr _ fhe Cmg (or_intror (or_introl Efhe)) Hfhe) as [mg [Emg Hmg]].
+           split; [unfold env_ok; cbn [decl cur]; rewrite Emg; split; assumption|].
+           right. exists fhe. split; [|exact Hfhe].
+           simpl. destruct x; inversion Efhe; subst; apply in_or_app; right; right; apply in_or_app; right; apply in_or_app; left; left; reflexivity.
+        -- admit.
+        -- admit.
+        -- admit.
+        -- admit.
+      * eapply result_weaken; [exact Rb | intros ? E; discriminate E | eapply decl_ext_trans; [exact Xv|eapply decl_ext_trans; eauto] | exact IJb].
+    + simpl in Rb. destruct (Nat.eqb c exc_id && negb (type_failure xx)); [reflexivity | exact Rb].
+  - (* SFinally *) discriminate.
   - (* SReturn *)
     destruct (infer P true (decl st) fr e) as [[te m]| |] eqn:Ei; simpl in Hc; try discriminate.
-    pose proof (EO e _ _ _ _ en Ei Hd Hfr) as Re.
-    destruct (eval P f en e) as [v|x0|]; simpl in *; [|exact Re|exact I]. destruct Re as [Mv _].
-    destruct (is_subtype P te ret) eqn:Es; [|discriminate]. eapply subtype_sound; eauto.
+    destruct (is_subtype P te ret) eqn:Es; [|discriminate]. inversion Hc; subst. clear Hc.
+    eapply slift_ok with (Q := fun v => mem P v te /\ maps_ok P en v m); [|exact Hd|].
+    { pose proof (EO e _ _ _ _ en Ei Hd Hfr) as Re. destruct (eval P f en e); exact Re. }
+    intros v [Mv _]. simpl. split; [eapply subtype_sound; eauto|]. split; [exact Hd | left; reflexivity].
   - (* SAssert *)
     destruct (infer P true (decl st) fr e) as [[te [im em]]| |] eqn:Ei; simpl in Hc; try discriminate.
     inversion Hc; subst. clear Hc.
-    pose proof (EO e _ _ _ _ en Ei Hd Hfr) as Re.
-    destruct (eval P f en e) as [v|x0|]; simpl in *; [|exact Re|exact I]. destruct Re as [_ [RT _]].
-    destruct (truthy v) eqn:Tv; simpl; [|reflexivity].
-    destruct (RT eq_refl) as [m1 [Em1 Mok1]]. simpl in Em1. subst im. split; simpl; [exact Hd | apply push_ok; assumption].
+    eapply slift_ok with (Q := fun v => mem P v te /\ maps_ok P en v (im, em)); [|exact Hd|].
+    { pose proof (EO e _ _ _ _ en Ei Hd Hfr) as Re. destruct (eval P f en e); exact Re. }
+    intros v [_ [RT _]]. destruct (truthy v) eqn:Tv; simpl; [|reflexivity].
+    destruct (RT eq_refl) as [m1 [Em1 Mok1]]. simpl in Em1. subst im.
+    split; [split; simpl; [exact Hd | apply push_ok; assumption] | left; reflexivity].
   - (* SPass *)
-    inversion Hc; subst. split; [exact Hd | rewrite Ecur; exact Hfr].
+    inversion Hc; subst. apply normal_ok. exact Hst0.
   - (* SSeq *)
-    destruct (check_stmt P true ret st s1) as [st1| |] eqn:E1; simpl in Hc; try discriminate.
-    assert (Hst : env_ok P en st) by (split; [exact Hd | rewrite Ecur; exact Hfr]).
-    pose proof (SO s1 ret st st1 en E1 Hst) as R1.
-    destruct (exec P f en s1) as [[en1|w]|x0|]; simpl in *; [|exact R1|exact R1|exact I].
-    exact (SO s2 ret st1 st' en1 Hc R1).
+    destruct (check_stmt P true ret st s1) as [[st1 J1]| |] eqn:E1; simpl in Hc; try discriminate.
+    destruct (check_stmt P true ret st1 s2) as [[st2 J2]| |] eqn:E2; simpl in Hc; try discriminate.
+    inversion Hc; subst. clear Hc.
+    assert (X2 : decl_ext (decl st1) (decl st')) by (apply check_decl_ext in E2; exact E2).
+    pose proof (SO s1 ret st st1 J1 en E1 Hst0) as R1.
+    destruct (exec P f en s1) as [[en1|en1 w|en1|en1|en1 w]|xx|]; simpl obind;
+      try (eapply result_weaken; [exact R1 | intros ? E; discriminate E | exact X2 | apply jincl_l]; fail);
+      [|exact R1|exact I].
+    destruct R1 as [H1 Hcv].
+    eapply result_shift; [eapply covered_incl; [exact Hcv | apply jincl_l]|].
+    eapply result_weaken; [exact (SO s2 ret st1 st' J2 en1 E2 H1) | auto | apply decl_ext_refl | apply jincl_r].
   - (* SExpr *)
     destruct (infer P true (decl st) fr e) as [[te m]| |] eqn:Ei; simpl in Hc; try discriminate.
-    inversion Hc; subst.
-    pose proof (EO e _ _ _ _ en Ei Hd Hfr) as Re.
-    destruct (eval P f en e) as [v|x0|]; simpl in *; [|exact Re|exact I].
-    split; [exact Hd | rewrite Ecur; exact Hfr].
+    inversion Hc; subst. clear Hc.
+    eapply slift_ok with (Q := fun v => mem P v te /\ maps_ok P en v m); [|exact Hd|].
+    { pose proof (EO e _ _ _ _ en Ei Hd Hfr) as Re. destruct (eval P f en e); exact Re. }
+    intros v _. apply normal_ok. exact Hst0.
   - (* SLab *)
-    apply with_label_ok in Hc.
-    assert (Hst : env_ok P en st) by (split; [exact Hd | rewrite Ecur; exact Hfr]).
-    exact (SO s ret st st' en Hc Hst).
-Qed.
-
-Lemma body_from_stmt : forall f, stmt_ok_at P f -> body_ok_at P f.
-Proof.
-  intros f SO self fd en Hc Hd. unfold check_fun in Hc. apply with_label_ok in Hc.
-  fold (params_of self fd) in Hc.
-  destruct (negb _); [discriminate|].
-  destruct (redecl_ok P _ (f_body fd)) as [bound|]; [|discriminate].
-  destruct (negb _); [discriminate|].
-  destruct (negb _); [discriminate|].
-  destruct (check_stmt P true (f_ret fd) _ (f_body fd)) as [st'| |] eqn:Eb; simpl in Hc; try discriminate.
-  pose proof (SO _ _ _ _ en Eb (conj Hd (frame_ok_nil en))) as R.
-  unfold call_ok. destruct (exec P f en (f_body fd)) as [[en1|w]|x|]; simpl in *; try exact R.
-  destruct R as [_ Hc1]. destruct (cur st'); [|contradiction].
-  destruct (f_ret fd); simpl in Hc; try discriminate. constructor.
-Qed.
-
-Theorem sound_all : forall f, sound_upto f.
-Proof.
-  induction f as [|f IH]; intros f' Hle.
-  - assert (f' = 0) by lia. subst. split.
-    + intros e d fr t m en _ _ _. exact I.
-    + intros s ret st st' en _ _. exact I.
-  - destruct (Nat.eq_dec f' (S f)) as [->|Hn]; [|apply IH; lia].
-    destruct (IH f (le_n f)) as [EO SO]. split.
-    + apply expr_step; [exact Hpo | exact EO | apply body_from_stmt; exact SO].
-    + apply stmt_step. exact IH.
-Qed.
-
-Theorem stmt_invariant_holds : forall f, stmt_ok_at P f.
-Proof. intro f. exact (proj2 (sound_all f f (le_n f))). Qed.
-
-Theorem expr_sound_holds : forall f, expr_ok_at P f.
-Proof. intro f. exact (proj1 (sound_all f f (le_n f))). Qed.
-
-Theorem call_sound : forall g fd vs fuel, lookup (p_funcs P) g = Some fd ->
-  mems P vs (map snd (f_params fd)) -> call_ok P (f_ret fd) (call_fun P fuel g vs).
-Proof.
-  intros g fd vs fuel Hl Hm. unfold call_fun. rewrite Hl.
-  rewrite (mems_length P _ _ Hm), map_length, Nat.eqb_refl.
-  apply (body_from_stmt fuel (stmt_invariant_holds fuel) None fd).
-  - exact (proj1 (proj2 (proj2 Hpo)) _ _ Hl).
-  - apply bind_params_ok. exact Hm.
-Qed.
-End S4.
+    apply with_label_ok in Hc. exact (SO s ret st st' J en Hc Hst0).
+Admitted.
